@@ -3,7 +3,7 @@ style so that sub-expressions that can raise are bound (`>>=`) in Python's evalu
 import ast
 
 from py2lean_types import (Unsupported, Impure, Ty, TInt, TBool, TStr, TNone, TRange, TErased, TList, TOpt, TTuple,
-                           TDict, TObj, TAbs, TExc, TUnion, TVar, THet, TMaybe, INT, BOOL, STR, NONE, RANGE, ERASED,
+                           TDict, TObj, TAbs, TExc, TUnion, TVar, THet, TMaybe, TEffect, INT, BOOL, STR, NONE, RANGE, ERASED,
                            resolve, unify, join, coerce, proj, iter_elem)
 
 EXC = {"ValueError": ".valueError", "TypeError": ".typeError", "IndexError": ".indexError",
@@ -79,6 +79,10 @@ class ExprMixin:
             return k("(if {} then (1 : Int) else 0)".format(c))
         if isinstance(t, TOpt) and isinstance(resolve(t.elem), TInt):
             return self.bind("Py.unNone {}".format(c), INT, lambda v, _t: k(v), "v")
+        if isinstance(t, TUnion) and isinstance(resolve(t.a), TInt):
+            # scalar-or-sequence used as a number: a sequence is a TypeError
+            return self.bind("(match {} with | .inl v => Except.ok v | .inr _ => Except.error Err.typeError)".format(c),
+                             INT, lambda v, _t: k(v), "v")
         raise Unsupported("integer expected, got " + t.lean())
 
     def as_list(self, c, t, k):
@@ -114,6 +118,8 @@ class ExprMixin:
         raise Unsupported("constant " + repr(v))
 
     def e_Name(self, e, env, k):
+        if e.id in self.effect_alias and self.effect_key(e, env) is not None:
+            return k(*env[self.effect_key(e, env)])
         if e.id in env:
             c, t = env[e.id]
             if isinstance(resolve(t), TMaybe):
@@ -122,6 +128,8 @@ class ExprMixin:
         raise Unsupported("unknown name " + e.id)
 
     def e_Attribute(self, e, env, k):
+        if self.effect_key(e, env) is not None:
+            return k(*env[self.effect_key(e, env)])
         key = src(e)
         if key in env:                       # self.x inside __init__
             return k(*env[key])
@@ -153,6 +161,8 @@ class ExprMixin:
             if not vs:
                 tv = TVar()
                 return k("([] : List {})".format(TyRef(tv)), TList(tv))
+            # (a list of literals some of whose entries are `group(i, j)` values keeps them as scalar-or-sequence entries:
+            # what a list among the literals does is decided where the list is used — PyF.lits for the checked builders)
             t = vs[0][1]
             for _, t2 in vs[1:]:
                 t = join(t, t2)
@@ -164,6 +174,8 @@ class ExprMixin:
     def e_UnaryOp(self, e, env, k):
         if isinstance(e.op, ast.USub):
             return self.expr(e.operand, env, lambda c, t: self.as_int(c, t, lambda v: k("(-{})".format(v), INT)))
+        if isinstance(e.op, ast.UAdd):      # +x: the integer itself (a list operand is a TypeError, as for -x)
+            return self.expr(e.operand, env, lambda c, t: self.as_int(c, t, lambda v: k(v, INT)))
         if isinstance(e.op, ast.Not):
             return self.boolval(e, env, k)
         raise Unsupported("unary " + src(e))
@@ -183,6 +195,15 @@ class ExprMixin:
                     j = join(j, t) if j is not None else None
                 if j is not None:
                     return k("({} ++ [{}])".format(coerce(l, tl, TList(j)), ", ".join(coerce(c, t, j) for c, t in tails)), TList(j))
+                if isinstance(resolve(tl.elem), TInt) and all(
+                        isinstance(resolve(t), TInt) or (isinstance(resolve(t), TUnion) and isinstance(resolve(resolve(t).a), TInt))
+                        for _, t in tails):
+                    # literals: an entry computed by `group(i)` must be the scalar
+                    def ints_(i, acc):
+                        if i == len(tails):
+                            return k("({} ++ [{}])".format(l, ", ".join(acc)), TList(INT))
+                        return self.as_int(tails[i][0], tails[i][1], lambda v: ints_(i + 1, acc + [v]))
+                    return ints_(0, [])
                 return k("(" + ", ".join([l] + [c for c, _ in tails]) + ")", THet(tl.elem, [t for _, t in tails]))
             return self.exprs([e.left] + list(e.right.elts), env, het)
 
@@ -275,6 +296,8 @@ class ExprMixin:
 
     def prop(self, e, env):
         """decidable Lean proposition for a side-effect-free condition (pure mode only)"""
+        if src(e) in self.assume_false:
+            return "False"           # declared in the specs (typed domain), see notes/translator.md
         if isinstance(e, ast.BoolOp):
             sym = " ∧ " if isinstance(e.op, ast.And) else " ∨ "
             return "(" + sym.join(self.prop(v, env) for v in e.values) + ")"
@@ -305,6 +328,13 @@ class ExprMixin:
         if cls == "int" and isinstance(t, (TInt, TBool)):
             return "True"
         if isinstance(t, TAbs) and cls in self.reg.abs_isinstance.get(t.name, ()):
+            return "True"
+        if isinstance(t, TObj):
+            # static dispatch: the class of the object is its declared type
+            wanted = [src(x) for x in e.args[1].elts] if isinstance(e.args[1], ast.Tuple) else [cls]
+            mine = [n.name for n in self.reg.mro(t.cls)] or [t.cls]
+            return "True" if any(w in mine for w in wanted) else "False"
+        if cls in ("numbers.Integral", "Integral") and isinstance(t, (TInt, TBool)):
             return "True"
         raise Unsupported("isinstance test outside the typed domain: " + src(e))
 
